@@ -167,8 +167,11 @@ def _layering_body(tmod, prep: Function, rep, rule: str) -> None:
     # no other mutation of the working dict between layers than update / Authorization for bearer token
     for n in own_nodes(prep.node):
         if isinstance(n, ast.Assign) and isinstance(n.targets[0], ast.Name) and n.targets[0].id == wv and n is not first:
-            v = n.value
-            from_auth = isinstance(v, ast.Subscript) and const_str(v.slice) == "headers"
+            from sa.match import Locals as _L172
+
+            v = _L172(prep.node).inline(n.value, stop=tuple(prep.params))  # `plugin_headers = auth_result.get("headers")`; `headers = plugin_headers`
+            from_auth = (isinstance(v, ast.Subscript) and const_str(v.slice) == "headers") or (
+                isinstance(v, ast.Call) and isinstance(v.func, ast.Attribute) and v.func.attr == "get" and v.args and const_str(v.args[0]) == "headers")
             if from_auth:
                 rep.ok(rule, sub0 + f" reassignment `{norm(n)[:50]}`", "takes the plugin's result headers", prep.loc(n))
             else:
